@@ -122,12 +122,21 @@ class BaseStandaloneNetworkServerImpl(AbstractNetworkServer, Generic[_T_AsyncSer
     def server_close(self) -> None:
         with self.__close_lock.get(), contextlib.ExitStack() as stack:
             stack.callback(self.__is_closed.set)
-            try:
-                self._run_sync_or(lambda portal, server: portal.run_coroutine(server.server_close), None)
-            except BusyResourceError:
-                # The server refused to close (serve_forever() is setting up): it is not closed.
-                stack.pop_all()
-                raise
+            scheduler_is_shutting_down: bool = False
+            with self.__bootstrap_lock.get():
+                if (portal := self.__threads_portal) is not None and (server := self.__server) is not None:
+                    try:
+                        portal.run_coroutine(server.server_close)
+                    except BusyResourceError:
+                        # The server refused to close (serve_forever() is setting up): it is not closed.
+                        stack.pop_all()
+                        raise
+                    except (RuntimeError, concurrent.futures.CancelledError):
+                        scheduler_is_shutting_down = True
+            if scheduler_is_shutting_down:
+                # serve_forever() is returning and closes the server by itself. Wait for it, so the listeners
+                # are really closed when this method returns.
+                self.__is_shutdown.wait()
 
     @_utils.inherit_doc(AbstractNetworkServer)
     def shutdown(self, timeout: float | None = None) -> None:
